@@ -62,14 +62,78 @@ def shards(tier, seed):
                 continue
             for part in range(8 if n >= 4 else 1):
                 out.append(dict(leg="chunked", engine=None, dtype="float64", func=func, n=n, part=part, nparts=8 if n >= 4 else 1))
+    # 2-D labels (both axes reduced) with a leading batch axis, with and without expected_groups + fill_value
+    for engine in ("flox", None):
+        for func in ("quantile", "nanquantile"):
+            out.append(dict(leg="nd", engine=engine, dtype="float64", func=func, n=4, part=0, nparts=1))
     out.sort(key=lambda s: (0 if s["engine"] == "numpy" else 1, -s["n"]))
     return out
+
+
+def run_nd(res, shard):
+    """Labels of shape (2, 2) over {0, 1, NaN}, values batched along a leading axis, every q of QS; expected_groups absent or a
+    superset with a fill_value (absent labels get the fill; the counts that decide it carry no quantile axis); in memory
+    and as one dask block.  The result has shape (len(q),) + (batch,) + (groups,)."""
+    import dask.array as da
+
+    func, engine = shard["func"], shard["engine"]
+    V = space.value_matrix((1.0, -2.0, float("nan")), 4, "float64")
+    B = V.shape[0]
+    Vn = V.reshape(B, 2, 2)
+    for lt in itertools.product((0.0, 1.0, float("nan")), repeat=4):
+        if not any(x == x for x in lt):
+            continue
+        labels = np.array(lt).reshape(2, 2)
+        present = sorted(set(x for x in lt if x == x))
+        for q in QS:
+            for expected, fill in ((None, None), ([0.0, 1.0, 2.0], -7.0)):
+                order = present if expected is None else expected
+                exp, scope, pres = e1.expected_table(func, V, list(lt), order, q=q)
+                vec = isinstance(q, list)
+                if expected is not None:
+                    cnt, _, _ = e1.expected_table("count", V, list(lt), order)
+                    fillcells = np.broadcast_to(~pres[None, :], cnt.shape)
+                    exp = np.where(np.broadcast_to(fillcells, exp.shape), fill, exp)
+                    # groups without any valid member: NumPy's value or the fill (flox's fill convention) - not compared here
+                    scope = np.broadcast_to(scope, exp.shape) & np.broadcast_to((cnt > 0) | fillcells, exp.shape)
+                for chunked in (False, True):
+                    kw = dict(func=func, engine=engine, finalize_kwargs=dict(q=q))
+                    if expected is not None:
+                        kw.update(expected_groups=np.array(expected), fill_value=fill)
+                    arr = da.from_array(Vn, chunks=(B, 2, 2)) if chunked else Vn
+                    out = e1.call_reduce(arr, labels, **kw)
+                    res.evaluations += B
+                    res.states += B
+                    res.transitions += 1
+                    res.nontrivial += B
+                    case = dict(leg="nd", func=func, q=q, engine=engine, labels=list(lt), expected=expected, fill=fill, chunked=chunked)
+                    tags = dict(leg2="nd", func=func, engine=str(engine), vector_q=vec, nq=len(q) if vec else 0, expected=expected is not None, chunked=chunked)
+                    if out.kind != "ok":
+                        res.outcomes[f"{out.kind}:{out.exc}"] += 1
+                        res.violate("quantile-error", case, out.brief(), "a result", tags=dict(tags, kind=out.kind, exc=out.exc), size=45)
+                        continue
+                    res.compared += B
+                    obs = np.asarray(out.result)
+                    want_shape = ((len(q),) if vec else ()) + (B, len(order))
+                    if obs.shape != want_shape:
+                        res.outcomes["mismatch"] += 1
+                        res.violate("quantile-shape", case, dict(shape=list(obs.shape)), dict(shape=list(want_shape)), tags=dict(tags, kind="shape"), size=45)
+                        continue
+                    bad = e1.compare(obs, exp.reshape(want_shape), np.broadcast_to(scope, want_shape), rtol=1e-12, atol=1e-12)
+                    if bad is None:
+                        res.outcomes["ok"] += 1
+                    else:
+                        res.outcomes["mismatch"] += 1
+                        res.violate("quantile-value", dict(case, cell=list(bad), values=V[bad[-2]]), obs[bad], exp.reshape(want_shape)[bad], tags=dict(tags, kind="value"), size=45)
+    res.sample(dict(leg="nd", func=func, engine=engine, label_shape=[2, 2], q=[str(q) for q in QS], expected_groups=[None, [0.0, 1.0, 2.0]], fill_value=-7.0, rows=B))
+    return res
 
 
 def qlist(func, engine):
     if func in ("median", "nanmedian"):
         return [None]
-    return [q for q in QS if not (engine == "numpy" and isinstance(q, list))]
+    # engine='numpy' documents that it cannot compute several quantiles at once; a vector q of length one is asked anyway
+    return [q for q in QS if not (engine == "numpy" and isinstance(q, list) and len(q) > 1)]
 
 
 def check_point(res, func, q, engine, dtype, lab_tuple, V, brank=1, chunks=None, method=None, oned_row=None):
@@ -120,7 +184,10 @@ def check_point(res, func, q, engine, dtype, lab_tuple, V, brank=1, chunks=None,
             return
     if out.kind == "refused":
         res.outcomes[f"refused:{out.exc}"] += 1
-        if chunks is None and engine in ("flox", None):
+        if out.origin != "flox":
+            # not a refusal by flox but a failure inside numpy / numpy_groupies / dask that happens to be a ValueError
+            res.violate("quantile-error", case, out.brief(), "a result or a refusal by flox itself", tags=dict(tags, kind="foreign-error", exc=out.exc), size=size)
+        elif chunks is None and engine in ("flox", None):
             res.violate("quantile-refused", case, out.brief(), "engine flox/None computes order statistics",
                         tags=dict(tags, kind="refused"), size=size)
         elif chunks is not None and not straddle and method in (None, "blockwise"):
@@ -177,6 +244,8 @@ def check_point(res, func, q, engine, dtype, lab_tuple, V, brank=1, chunks=None,
 def run_shard(shard):
     e1.reset_flox_caches()
     res = Result()
+    if shard["leg"] == "nd":
+        return run_nd(res, shard)
     func, engine, dtype, n = shard["func"], shard["engine"], shard["dtype"], shard["n"]
     alphabet = AI if dtype == "int64" else AV
     if engine == "numpy" and n >= 4:
@@ -214,6 +283,8 @@ def replay(payload):
 
     res = Result()
     c = payload["case"]
+    if c.get("leg") == "nd":
+        return run_nd(res, dict(func=c["func"], engine=c["engine"]))
     lt = tuple(unjson_float(c["labels"]))
     alphabet = AI if c["dtype"] == "int64" else AV
     V = space.value_matrix(alphabet, len(lt), c["dtype"])
